@@ -28,6 +28,10 @@ def run(ctx):
                                max_tick_gap=30, unit_gap_p=0.4, big=(r.random() < 0.1))
         cases.append({"id": f"C05-s{k}", "res": 192, "body": body})
     _notes._judge(ctx, cases, "C05", "seeded tracks with many phrases")
+    # bonus: the cursor invariant and the correctness of the emitted membership are INDUCTIVE (Apalache; unbounded ticks,
+    # lengths and number of notes, up to 4 phrases).  Recorded in the evidence; nothing depends on it.
+    if ctx.tier == "thorough":
+        ctx.apalache_inductive("SpCursor", "apalache_inductive_invariant_SpCursor")
     ctx.assumptions += [
         "domain: phrases in non-decreasing start order, notes in increasing tick order",
         "membership is judged against the track's own star-power list as observed",
